@@ -112,20 +112,22 @@ MEMOPS = _memops()
 
 def memop_jobs(ctx, kinds, solver="sat"):
     """one contract per load/store opcode (kinds: 0 plain load, 1 plain store, 2 atomic load, 3 atomic store) at every stack height;
-    quick: non-zero offsets, thorough: also the zero-offset text and the -p output"""
+    THOROUGH tier only: non-zero and zero offsets, compact output; no growth of the type stack (NO_GROW; growth: E.h.load / E.h.store)"""
     jobs = []
+    if ctx.tier != "thorough":      # 110 s to more than 550 s per job on minisat in different runs of the same input: too unstable for the every-change tier
+        return jobs
     emit = {0: "wasmCWriteLoadExpr", 1: "wasmCWriteStoreExpr", 2: "wasmCWriteAtomicLoadExpr", 3: "wasmCWriteAtomicStoreExpr"}
     inner = {0: "wasmCWriteLoad", 1: "wasmCWriteStore", 2: "wasmCWriteLoad", 3: "wasmCWriteStore"}
     for op in MEMOPS:
         if op["kind"] not in kinds:
             continue
         for offz in ((0, 1) if ctx.tier == "thorough" else (0,)):
-            for pr in ((0, 1) if ctx.tier == "thorough" else (0,)):
+            for pr in (0,):      # the -p text of the call is that of wasmCWriteLoad / wasmCWriteStore (E.h.load.pretty / E.h.store.pretty)
                 jobs.append(ejob(ctx, "E.h.op.%s%s%s" % (op["mnemonic"], ".off0" if offz else "", ".pretty" if pr else ""), "e_more.c", "h_memop",
                                  ["c.c:" + emit[op["kind"]], "c.c:" + inner[op["kind"]], "c.c:wasmCWriteStringMemoryUse", "instruction.c:wasmMemoryArgumentInstructionRead", "leb128.h:leb128ReadU32"] + COMMON,
                                  defines=["PRETTY=%d" % pr, "INDENT=%d" % (2 if pr else 0), "OFFZ=%d" % offz, "MEMOP_KIND=%d" % op["kind"], "MEMOP_OPC=" + op["enum"],
-                                          "MEMOP_FN=" + op["fn"], *(["NO_GROW=1"] if ctx.tier == "quick" else []), "MEMOP_RT=%d" % op["rt"], "MEMOP_ALIGN=%d" % op["align"]],
-                                 flags=["--unwind", "24", "--unwinding-assertions"], solver=solver, timeout=(900 if ctx.tier == "quick" else 1800),
+                                          "MEMOP_FN=" + op["fn"], "NO_GROW=1", "MEMOP_RT=%d" % op["rt"], "MEMOP_ALIGN=%d" % op["align"]],
+                                 flags=["--unwind", "24", "--unwinding-assertions"], solver=solver, timeout=3000,
                                  info=dict(layer="E", note="opcode -> runtime function / result type / natural alignment from the mnemonic; symbolic stack height h <= 2^24, "
                                            "symbolic offset (5-byte padded LEB) and alignment hint; array.c growth enters through its contract (job A.ensure_capacity)")))
     return jobs
